@@ -38,9 +38,91 @@ def callShapeB (s : PState) : Bool :=
     !(live s.tree x && (slot s.tree x).opcode == opIntNamePathOrMethodCall) ||
       (match (slot s.tree x).value with | .bytes _ _ => true | _ => false)
 
+/-! ### the hypotheses of the per-block theorem of the strict pass (`C12.deferred_block_no_panic_WF`) -/
+
+/-- the table row of `Method` -/
+def methodRow : Nat := pOpcodeTableIndex opMethod true
+
+/-- row `i` has at most seven arguments, its `TermList` follows a leading `PkgLen`, its `FieldList` a `ByteData`, its
+`ByteList` a `TermArg` (the executable twin of `rowFacts` in `Proof/AmlRows.lean`) -/
+def rowOKb (i : Nat) : Bool :=
+  decide ((opArgCount i).getD 0 ≤ 7) &&
+  (List.range 8).all fun j =>
+    ((opArg i j).getD 0 != argTypeTermList || (decide (1 ≤ j) && (opArg i 0).getD 0 == argTypePkgLen)) &&
+    ((opArg i j).getD 0 != argTypeFieldList || (decide (1 ≤ j) && (opArg i (j - 1)).getD 0 == argTypeByteData)) &&
+    ((opArg i j).getD 0 != argTypeByteList || (decide (1 ≤ j) && (opArg i (j - 1)).getD 0 == argTypeTermArg))
+
+/-- `m` has a first and a second argument and the second holds an integer -/
+def shB (t : ObjectTree) (m : Nat) : Bool :=
+  live t (Fi t m) && live t (Nx t (Fi t m)) &&
+    (match (slot t (Nx t (Fi t m))).value with | .u64 _ => true | _ => false)
+
+/-- every live `Method` has its flags argument -/
+def msB (t : ObjectTree) : Bool :=
+  (List.range t.pool.size).all fun m => !(live t m && (slot t m).opcode == opMethod) || shB t m
+
+/-- no `Method` on the scope stack -/
+def stackNMb (s : PState) : Bool := s.scopeStack.toList.all fun x => (slot s.tree x).opcode != opMethod
+
+/-- the parser state is well formed: reader inside the table, `C13.WF` pool with a live root and table indices in
+range, every scope-stack entry live -/
+def fpB (d : Bytes) (s : PState) : Bool :=
+  decide (s.r.offset ≤ d.size) && decide (s.r.pkgEnd ≤ d.size) &&
+  wfCheck s.tree && live s.tree 0 &&
+  ((List.range s.tree.pool.size).all fun x => !live s.tree x || (opFlags (slot s.tree x).infoIndex).isSome) &&
+  s.scopeStack.toList.all fun x => live s.tree x
+
+/-- the deferred object: live, a row the argument parser understands, not a `Method`, attached under a non-`Method` -/
+def blockOKb (s : PState) (obj : Nat) : Bool :=
+  live s.tree obj && rowOKb (slot s.tree obj).infoIndex &&
+  ((slot s.tree obj).opcode != opMethod) && ((slot s.tree obj).infoIndex != methodRow) &&
+  (C13.P s.tree obj != INV) && ((slot s.tree (C13.P s.tree obj)).opcode != opMethod)
+
+/-- the hypotheses of the per-block theorem that do not hold in `s` for the deferred object `obj` -/
+def blockAudit (d : Bytes) (s : PState) (obj : Nat) : List String :=
+  (if fpB d s then [] else ["deferred-block:state-well-formed"]) ++
+  (if stackNMb s then [] else ["deferred-block:no-method-on-scope-stack"]) ++
+  (if msB s.tree then [] else ["deferred-block:methods-have-flags"]) ++
+  (if blockOKb s obj then [] else ["deferred-block:block-object"]) ++
+  (if s.tree.pool.size + 16 * d.size + 16 ≤ INV then [] else ["deferred-block:object-budget"])
+
+mutual
+/-- `parseDeferredBlocks(objIndex)` with the hypotheses of the per-block theorem evaluated in front of every
+`parseDeferred` (same walk, same calls) -/
+def auditDeferredBlocks (d : Bytes) (fuel : Nat) : Nat → Nat → PState → List String → Res (PRes × PState × List String)
+  | 0, _, _, _ => .error .outOfFuel
+  | f+1, objIndex, s, acc =>
+    match s.tree.ObjectAt objIndex with
+    | none => .error .panic
+    | some obj =>
+      let o := slot s.tree obj
+      match opFlags o.infoIndex with
+      | none => .error .panic
+      | some flags =>
+        if hasFlag flags flagDeferParsing ∧ o.tableHandle = s.tableHandle then
+          match parseDeferred d fuel obj s with
+          | .ok (r, s') => .ok (r, s', acc ++ blockAudit d s obj)
+          | .error e => .error e
+        else auditDeferredLoop d fuel f o.firstArgIndex s acc
+
+def auditDeferredLoop (d : Bytes) (fuel : Nat) : Nat → Nat → PState → List String → Res (PRes × PState × List String)
+  | 0, _, _, _ => .error .outOfFuel
+  | f+1, argIndex, s, acc =>
+    if argIndex = invalidIndex then .ok (.ok, s, acc)
+    else
+      match auditDeferredBlocks d fuel f argIndex s acc with
+      | .error e => .error e
+      | .ok (r, s1, acc1) =>
+        if r ≠ .ok then .ok (.failed, s1, acc1)
+        else
+          match s1.tree.ObjectAt argIndex with
+          | none => .error .panic
+          | some a => auditDeferredLoop d fuel f (slot s1.tree a).nextSiblingIndex s1 acc1
+end
+
 /-- `ParseAML` stage by stage (the same calls in the same order as `parseAMLBody`), collecting the names of the
 shape hypotheses that do not hold where a theorem assumes them: `MergeInv` after a first pass that did not fail,
-`CallShape` before `resolveMethodCalls` -/
+the hypotheses of the per-block theorem in front of every deferred block, `CallShape` before `resolveMethodCalls` -/
 def shapeAudit (d : Bytes) (fuel handle : Nat) (s : PState) : List String :=
   match (do init d handle; scopeEnter 0; parseObjectList d fuel fuel : P PRes) s with
   | .error _ => []
@@ -55,10 +137,10 @@ def shapeAudit (d : Bytes) (fuel handle : Nat) (s : PState) : List String :=
       | .error _ => f1
       | .ok (b3, s3) =>
         if !b3 then f1 else
-        match parseDeferredBlocks d fuel fuel 0 s3 with
+        match auditDeferredBlocks d fuel fuel 0 s3 [] with
         | .error _ => f1
-        | .ok (r4, s4) =>
-          if r4 ≠ .ok then f1 else
-          f1 ++ (if callShapeB s4 then [] else ["CallShape-before-resolveMethodCalls"])
+        | .ok (r4, s4, f4) =>
+          if r4 ≠ .ok then f1 ++ f4 else
+          f1 ++ f4 ++ (if callShapeB s4 then [] else ["CallShape-before-resolveMethodCalls"])
 
 end Firefly.AmlParser
